@@ -210,9 +210,11 @@ def parse_layouts(paths):
                 vm = re.match(r"(\w+)", v)
                 if not vm:
                     continue
-                em = re.search(r"=\s*(\d+)", v) if "(" not in v and "{" not in v else None
+                em = re.search(r"=\s*(0x[0-9a-fA-F_]+|\d[\d_]*)", v) if "(" not in v and "{" not in v else None
                 if em:
-                    idx = int(em.group(1))
+                    lit = em.group(1).replace("_", "")
+                    lit = re.sub(r"(u8|u16|u32|u64|usize|i8|i16|i32|i64|isize)$", "", lit) if not lit.startswith("0x") else re.sub(r"(u8|u16|u32|u64|usize)$", "", lit)
+                    idx = int(lit, 16) if lit.startswith("0x") else int(lit)
                 vmap[vm.group(1)] = idx
                 idx += 1
             enums.setdefault(m.group(1), vmap)
@@ -933,6 +935,31 @@ class Executor:
                     res[("as", "Err")] = x[("as", "Err")]
                 brk[0] = res
                 r[("as", "Break")] = brk
+                return r
+        if re.match(r"(std::option::)?Option::<.*>::ok_or(_else)?::<", callee):
+            x = self.operand(st, args[0])
+            if isinstance(x, Ref):
+                cont, key = self.resolve(st, list(x.path))
+                x = cont.get(key)
+            if isinstance(x, Agg):
+                if "#d" not in x:
+                    self.new_discr(st, x, "Option")
+                r = Agg("Result")
+                r["#d"] = z3.If(x["#d"] == 1, z3.BitVecVal(0, 64), z3.BitVecVal(1, 64))
+                okv = Agg("Ok")
+                some = x.get(("as", "Some"))
+                okv[0] = some[0] if isinstance(some, Agg) and 0 in some else Agg("someval")
+                r[("as", "Ok")] = okv
+                return r
+        if re.match(r"(std::result::)?Result::<.*>::map_err::<", callee):
+            x = self.operand(st, args[0])
+            if isinstance(x, Agg):
+                if "#d" not in x:
+                    self.new_discr(st, x, "Result")
+                r = Agg("Result")
+                r["#d"] = x["#d"]
+                if ("as", "Ok") in x:
+                    r[("as", "Ok")] = x[("as", "Ok")]
                 return r
         if re.search(r"as (std::ops::)?FromResidual<.*Result<.*>>::from_residual$", callee) and re.match(r"<(std::result::)?Result<", callee):
             r = Agg("Result::Err")
